@@ -132,6 +132,28 @@ def split_chunks(rng, records, k=None):
     return chunks
 
 
+# A code-table section is text and the embedded table is that text, character for character: nothing at its start, its end
+# or in the middle is a signature, a terminator or padding to a UTF-8 reader (U+FEFF is the character a "signature-aware"
+# codec drops, NUL / U+FFFE / U+FFFD / surrogates-by-escape are what a "tolerant" one rewrites, CR LF / U+2028 / U+0085 what
+# a text-mode reader translates).
+CODE_TEXT_EDGES = ('\ufeff', '\ufeff\ufeff', '\ufffe', '\ufffd', '\x00', '\r\n', '\r', '\n', '\u2028', '\x85', '\x1a', ' ', '\t',
+                   '\ufeff0x1\tBOM_FIRST\n', '#', '\\ufeff', '\U0001f600', 'e\u0301', '\ufb01', '\x7f', '\xa0')
+
+
+def code_table_text(rng, txt):
+    c = rng.random()
+    if c < 0.45:
+        return txt
+    if c < 0.65:
+        return rng.choice(CODE_TEXT_EDGES) + txt
+    if c < 0.8:
+        return txt + rng.choice(CODE_TEXT_EDGES)
+    if c < 0.9:
+        k = rng.randrange(0, len(txt) + 1)
+        return txt[:k] + rng.choice(CODE_TEXT_EDGES) + txt[k:]
+    return ''.join(rng.choice(CODE_TEXT_EDGES) for _ in range(rng.randrange(1, 5)))
+
+
 def gen_blocks(rng, strings=None, n_logs=None, entries=()):
     """Random additional-data blocks.  Returns (blocks [(tag, payload)], model dict)."""
     strings = strings or logs.Strings(rng)
@@ -147,7 +169,7 @@ def gen_blocks(rng, strings=None, n_logs=None, entries=()):
         pending.append(('dyld', bins))
     for _ in range(rng.randrange(0, 3)):
         txt = ''.join(f'0x{rng.getrandbits(32):x}\tCODE_{rng.randrange(10000)}\n' for _ in range(rng.randrange(0, 4)))
-        pending.append(('codes', txt))
+        pending.append(('codes', code_table_text(rng, txt)))
     if rng.random() < 0.5:
         pending.append(('processes', {'Processes': [{'pid': rng.randrange(1000), 'name': 'p%d' % rng.randrange(50)}
                                                     for _ in range(rng.randrange(0, 4))]}))
